@@ -211,3 +211,12 @@ _p('C13', ['r_names', 'r_pushpair'],
    '(ranks from wasmparser\'s section order; the locals space is filled after the payload loop); R-PUSHPAIR: the spaces '
    'themselves are filled in lock-step with the binary.',
    not_decided='names of label/field/tag subsections (documented as dropped); which of two merged identical types keeps its name')
+
+_p('C15', ['r_builder', 'r_control', 'r_table', 'r_pushpair', 'r_sorted', 'r_visit'],
+   'Builder fidelity: instr/instr_at act on the builder\'s own sequence at the requested position; each generated method is one '
+   'instr/instr_at call with X{same-named fields}; block/loop_/if_else create fresh sequences, run the closures on them in '
+   'order and name exactly those sequences; emission of the built tree uses the stack discipline and depth computation of '
+   'R-CONTROL, the encode table of R-TABLE, the traversal order of R-VISIT, the local-slot numbering of R-PUSHPAIR (params '
+   'first, one counter increment per used local) and no binary search over unsorted user vectors (R-SORTED).',
+   not_decided='the in-order flattening of an arbitrary built tree as a whole (composition of the above; not executed); '
+               'well-typedness of what the user builds')
